@@ -93,8 +93,14 @@ theorem psdLoop_rows (rows : List PRow) : ∀ (pre j : Txt) (acc : List (Txt × 
 
 /-! ## (a) `_processSectionData` on the writer's point rows -/
 
-/-- a numeral: a `float()` literal that `strip()` leaves unchanged (hence without blanks at the ends, `=` or newline) -/
+/-- a numeral: a `float()` literal that `strip()` leaves unchanged (hence without blanks at the ends, `=` or
+newline: the third conjunct is a consequence of the first two, `numeral_iff`) -/
 def Numeral (n : Txt) : Prop := stripList n = n ∧ (fclass n).isSome ∧ '\n' ∉ n
+
+theorem Numeral.of_lit {n : Txt} (h : Lit n) : Numeral n := ⟨h.1, h.2, h.not_mem '\n' (by decide)⟩
+theorem Numeral.lit {n : Txt} (h : Numeral n) : Lit n := ⟨h.1, h.2.1⟩
+/-- `Numeral` is exactly `Lit`: any string `float()` accepts and `strip()` leaves alone -/
+theorem numeral_iff (n : Txt) : Numeral n ↔ Lit n := ⟨Numeral.lit, Numeral.of_lit⟩
 
 /-- how `_processSectionData` sees the point `(n, v)` written with indentation `ind` as number `i + 1` -/
 def rowOf (ind : Txt) (i : Nat) (p : Txt × Txt) : PRow :=
@@ -137,8 +143,9 @@ theorem isSome_fclass_not_nil : fclass [] = none := by decide
 `points [i]:⏎ number = nᵢ⏎ value = vᵢ` (any indentation not containing `=`, any numerals), the scanner
 returns exactly the list of `(nᵢ, vᵢ)` — for every list length. -/
 theorem processSectionData_written (ind : Txt) (hind : '=' ∉ ind) (pts : List (Txt × Txt))
-    (hn : ∀ p ∈ pts, Numeral p.1 ∧ Numeral p.2) :
+    (hn : ∀ p ∈ pts, Lit p.1 ∧ Lit p.2) :
     processSectionData (join ['\n'] (pointRows ind 0 pts)) = .ok pts := by
+  have hn : ∀ p ∈ pts, Numeral p.1 ∧ Numeral p.2 := fun p hp => ⟨.of_lit (hn p hp).1, .of_lit (hn p hp).2⟩
   unfold processSectionData
   cases hp : pts with
   | nil => simp [pointRows, join, psdLoop, pyFind, findAt, List.isPrefixOf]; rfl
@@ -268,15 +275,22 @@ def bodyLines (its : List IT) : List Txt := (its.map itLines).flatten
 without the letters `s` and `w` (so no tier keyword can hide in a number) -/
 def KNumeral (n : Txt) : Prop := Numeral n ∧ 's' ∉ n ∧ 'w' ∉ n
 
+theorem KNumeral.of_lit {n : Txt} (h : Lit n) : KNumeral n :=
+  ⟨.of_lit h, h.not_mem 's' (by decide), h.not_mem 'w' (by decide)⟩
+/-- `KNumeral` is exactly `Lit`: no float literal contains `s` or `w` (`fclass_chars`) -/
+theorem knumeral_iff (n : Txt) : KNumeral n ↔ Lit n := ⟨fun h => h.1.lit, KNumeral.of_lit⟩
+
 structure PTShape (iname : Txt) (p : PT) : Prop where
   name : ∃ k, p.name = iname ++ t " [" ++ natDec k ++ t "]"
   xmin : KNumeral p.xmin
   xmax : KNumeral p.xmax
   pts : ∀ q ∈ p.pts, KNumeral q.1 ∧ KNumeral q.2
 
-/-- the writer's shape of the intermediate tiers of one container section -/
+/-- the writer's shape of the intermediate tiers of one container section: distinct tiers with Praat's names
+(`canon`) **in any order**, sub tiers named `name [k]`, numerals -/
 structure Shape (its : List IT) : Prop where
-  names : (its.map (·.name)).Sublist canon
+  nodup : (its.map (·.name)).Nodup
+  canonical : ∀ i ∈ its, i.name ∈ canon
   subs : ∀ i ∈ its, ∀ p ∈ i.subs, PTShape i.name p
 
 /-! ### keyword occurrences, line by line -/
@@ -479,13 +493,13 @@ theorem tier_hits (kw : Txt) (hkw : kw ∈ canon) (i : IT) (hnm : i.name ∈ can
 
 theorem mem_canon_of_shape {its : List IT} (h : Shape its) : ∀ i ∈ its, i.name ∈ canon := by
   intro i hi
-  exact h.names.subset (List.mem_map.2 ⟨i, hi, rfl⟩)
+  exact h.canonical i hi
 
 theorem shape_tail {i : IT} {is : List IT} (h : Shape (i :: is)) : Shape is := by
-  refine ⟨?_, fun j hj => h.subs j (by simp [hj])⟩
-  have := h.names
+  refine ⟨?_, fun j hj => h.canonical j (by simp [hj]), fun j hj => h.subs j (by simp [hj])⟩
+  have := h.nodup
   simp only [List.map_cons] at this
-  exact (List.sublist_cons_self _ _).trans this
+  exact (List.nodup_cons.1 this).2
 
 /-- **all hits of a keyword in a container body**: the name rows of the tiers whose name contains it -/
 theorem body_hits (kw : Txt) (hkw : kw ∈ canon) (its : List IT) (h : Shape its) (o : Int) :
@@ -756,6 +770,111 @@ theorem group_flatten {β : Type} (cs : List Txt) (hnd : cs.Nodup) (G : List (Tx
           simp [sel, this]
         rw [e1, e2, ih hnd' G' hrs]
 
+section PermLemmas
+open List
+
+theorem insertSorted_perm (x : Int) (l : List Int) : insertSorted x l ~ x :: l := by
+  induction l with
+  | nil => exact Perm.refl _
+  | cons y ys ih =>
+    simp only [insertSorted]
+    split
+    · exact Perm.refl _
+    · exact (Perm.cons y ih).trans (Perm.swap x y ys)
+
+theorem sortInts_perm (l : List Int) : sortInts l ~ l := by
+  induction l with
+  | nil => exact Perm.refl _
+  | cons x xs ih =>
+    show insertSorted x (sortInts xs) ~ x :: xs
+    exact (insertSorted_perm x _).trans (Perm.cons x ih)
+
+theorem insertSorted_pairwise (x : Int) (l : List Int) (h : l.Pairwise (· ≤ ·)) : (insertSorted x l).Pairwise (· ≤ ·) := by
+  induction l with
+  | nil => simp [insertSorted]
+  | cons y ys ih =>
+    simp only [insertSorted]
+    split
+    · rename_i hxy
+      refine List.Pairwise.cons ?_ h
+      intro z hz
+      rcases List.mem_cons.1 hz with rfl | hz
+      · exact hxy
+      · exact Int.le_trans hxy ((List.pairwise_cons.1 h).1 z hz)
+    · rename_i hxy
+      obtain ⟨h1, h2⟩ := List.pairwise_cons.1 h
+      refine List.Pairwise.cons ?_ (ih h2)
+      intro z hz
+      have := (insertSorted_perm x ys).subset hz
+      rcases List.mem_cons.1 this with rfl | hz'
+      · omega
+      · exact h1 z hz'
+
+theorem sortInts_pairwise (l : List Int) : (sortInts l).Pairwise (· ≤ ·) := by
+  induction l with
+  | nil => exact List.Pairwise.nil
+  | cons x xs ih => exact insertSorted_pairwise x _ ih
+
+/-- sorting any rearrangement of a strictly ascending list gives that list -/
+theorem sortInts_of_perm (l l' : List Int) (hp : l ~ l') (hs : l'.Pairwise (· < ·)) : sortInts l = l' := by
+  apply Perm.eq_of_pairwise (le := (· ≤ ·)) (fun a b _ _ h1 h2 => Int.le_antisymm h1 h2) (sortInts_pairwise l)
+    (hs.imp (fun h => Int.le_of_lt h)) ((sortInts_perm l).trans hp)
+
+theorem flatten_map_append_perm {α β} (cs : List α) (A B : α → List β) :
+    (cs.map fun c => A c ++ B c).flatten ~ (cs.map A).flatten ++ (cs.map B).flatten := by
+  induction cs with
+  | nil => exact Perm.refl _
+  | cons c cs ih =>
+    simp only [List.map_cons, List.flatten_cons]
+    -- A c ++ B c ++ X ~ A c ++ a ++ (B c ++ b)
+    have h1 : A c ++ B c ++ (cs.map fun c => A c ++ B c).flatten ~ A c ++ B c ++ ((cs.map A).flatten ++ (cs.map B).flatten) :=
+      Perm.append (Perm.refl _) ih
+    refine h1.trans ?_
+    simp only [List.append_assoc]
+    refine Perm.append (Perm.refl _) ?_
+    rw [← List.append_assoc, ← List.append_assoc]
+    exact Perm.append perm_append_comm (Perm.refl _)
+
+theorem flatten_pick {β} (cs : List Txt) (hnd : cs.Nodup) (x : Txt) (hx : x ∈ cs) (v : List β) :
+    (cs.map fun c => if x = c then v else []).flatten = v := by
+  induction cs with
+  | nil => cases hx
+  | cons c cs ih =>
+    obtain ⟨hc, hnd'⟩ := List.nodup_cons.1 hnd
+    simp only [List.map_cons, List.flatten_cons]
+    by_cases hxc : x = c
+    · subst hxc
+      simp only [if_true]
+      rw [flatten_map_nil]
+      · simp
+      · intro a ha
+        have : x ≠ a := fun e => hc (e ▸ ha)
+        simp [this]
+    · simp only [hxc, if_false, List.nil_append]
+      rcases List.mem_cons.1 hx with h | h
+      · exact absurd h hxc
+      · exact ih hnd' h
+
+/-- whatever the order of the tiers in the file, the six index lists together hold every start exactly once -/
+theorem group_flatten_perm {β : Type} (cs : List Txt) (hnd : cs.Nodup) (G : List (Txt × List β)) (hs : ∀ g ∈ G, g.1 ∈ cs) :
+    (cs.map fun c => sel c G).flatten ~ G.flatMap (·.2) := by
+  induction G with
+  | nil =>
+    rw [flatten_map_nil]
+    · exact Perm.refl _
+    · intro c _; rfl
+  | cons g G' ih =>
+    have e : (cs.map fun c => sel c (g :: G')) = cs.map fun c => (if g.1 = c then g.2 else []) ++ sel c G' := by
+      apply List.map_congr_left
+      intro c _
+      simp [sel]
+    rw [e]
+    refine (flatten_map_append_perm cs _ _).trans ?_
+    rw [flatten_pick cs hnd g.1 (hs g (by simp)) g.2]
+    simp only [List.flatMap_cons]
+    exact Perm.append (Perm.refl _) (ih (fun g' hg' => hs g' (by simp [hg'])))
+end PermLemmas
+
 theorem groups_append (a b : List IT) (o : Int) : groups (a ++ b) o = groups a o ++ groups b (o + span (bodyLines a)) := by
   induction a generalizing o with
   | nil => simp [groups, bodyLines, span]
@@ -807,7 +926,7 @@ theorem close_sel (its : List IT) (h : Shape its) (c : Txt) (len : Nat) (hlen : 
   by_cases hc : c ∈ its.map (·.name)
   · obtain ⟨i, hi, hic⟩ := List.mem_map.1 hc
     obtain ⟨ia, ib, hits⟩ := List.append_of_mem hi
-    have hnd : (its.map (·.name)).Nodup := h.names.nodup canon_nodup
+    have hnd : (its.map (·.name)).Nodup := h.nodup
     rw [hits] at hnd
     simp only [List.map_append, List.map_cons] at hnd
     have hnd' := List.nodup_append.1 hnd
@@ -936,7 +1055,8 @@ theorem bodyLines_ne_nil (i : IT) (is : List IT) : bodyLines (i :: is) ≠ [] :=
 theorem canon_eq : canon = t "formants" :: subFilterList := rfl
 
 /-- **the index bookkeeping of `_proccessContainerTierInput` on a written container body**: for each of
-the six keywords, the name rows of the tier of that name followed by the newline that ends the tier's text -/
+the six keywords, the name rows of the tier of that name followed by the newline that ends the tier's text —
+in whatever order the tiers stand in the body (the master list is sorted: `sortInts_of_perm`) -/
 theorem containerIndexLists_body (its : List IT) (h : Shape its) :
     containerIndexLists (join ['\n'] (bodyLines its)) = canon.map fun c => closedSel c its (-1) := by
   cases hits : its with
@@ -970,8 +1090,13 @@ theorem containerIndexLists_body (its : List IT) (h : Shape its) :
       intro c hc
       exact hits_sub c hc _
     have hmaster : sortInts ((canon.map fun c => sel c (groups its (-1))).flatten) = (groups its (-1)).flatMap (·.2) := by
-      rw [group_flatten canon canon_nodup _ (by rw [groups_names]; exact h.names)]
-      exact sortInts_sorted _ (starts_sorted its (-1))
+      apply sortInts_of_perm _ _ _ (starts_sorted its (-1))
+      apply group_flatten_perm canon canon_nodup
+      intro g hg
+      have : g.1 ∈ (groups its (-1)).map (·.1) := List.mem_map.2 ⟨g, hg, rfl⟩
+      rw [groups_names] at this
+      obtain ⟨i, hi, hie⟩ := List.mem_map.1 this
+      rw [← hie]; exact h.canonical i hi
     simp only [containerIndexLists]
     rw [hlists, hmaster, List.map_map]
     apply List.map_congr_left
@@ -1255,7 +1380,8 @@ theorem filter_name_unique (ia ib : List IT) (i : IT) (c : Txt) (hic : i.name = 
 `_proccessContainerTierInput` hands to `_getSectionHeader` for each sub tier is that sub tier's text
 **in full** — `KlattSubPointTier.getAsText()` without its trailing newline; in particular it ends with
 the complete last row.  (The first slice of every index list is the tier's `name: size = n` header row,
-which `_getSectionHeader` rejects with ValueError; it is dropped here.) -/
+which `_getSectionHeader` rejects with ValueError; it is dropped here.)  `Shape`: distinct tiers with Praat's
+names **in any order**, sub tiers `name [k]`, numerals (`KNumeral n ↔ Lit n`, `knumeral_iff`). -/
 theorem section_slice_complete (its : List IT) (h : Shape its) :
     (containerIndexLists (join ['\n'] (bodyLines its))).map
         (fun l => (sliceList (join ['\n'] (bodyLines its)) l).drop 1)
@@ -1267,7 +1393,7 @@ theorem section_slice_complete (its : List IT) (h : Shape its) :
   by_cases hc : c ∈ its.map (·.name)
   · obtain ⟨i, hi, hic⟩ := List.mem_map.1 hc
     obtain ⟨ia, ib, hits⟩ := List.append_of_mem hi
-    have hnd : (its.map (·.name)).Nodup := h.names.nodup canon_nodup
+    have hnd : (its.map (·.name)).Nodup := h.nodup
     rw [hits] at hnd
     simp only [List.map_append, List.map_cons] at hnd
     have hnd' := List.nodup_append.1 hnd
@@ -1326,7 +1452,7 @@ theorem knumeral_examples : KNumeral (t "0") ∧ KNumeral (t "1") ∧ KNumeral (
 /-- the hypotheses of `section_slice_complete` are satisfiable -/
 theorem exIts_shape : Shape exIts := by
   obtain ⟨h0, h1, h05, h55, h025, h60⟩ := knumeral_examples
-  refine ⟨by decide, ?_⟩
+  refine ⟨by decide, by decide, ?_⟩
   intro i hi p hp
   simp only [exIts, List.mem_cons, List.not_mem_nil, or_false] at hi
   rcases hi with rfl | rfl
@@ -1607,12 +1733,14 @@ theorem buildEntries_tail (p : PT) (hpts : ∀ q ∈ p.pts, KNumeral q.1 ∧ KNu
       · intro c hc; exact nsp c (hd c (List.mem_of_getLast? hc))
     rw [e, afterEq_row _ _ (by decide) (eq_not_mem_natDec _) hstrip (by rw [hfc]; rfl)]
     simp only [bind, Except.bind, hfc, hlen, if_false, if_true]
-    exact processSectionData_written (t "    ") (by decide) p.pts (fun q hq => ⟨(hpts q hq).1.1, (hpts q hq).2.1⟩)
+    exact processSectionData_written (t "    ") (by decide) p.pts (fun q hq => ⟨(hpts q hq).1.1.lit, (hpts q hq).2.1.lit⟩)
 
 /-! ### the loop over one index list -/
 
-/-- the writer's shape, plus what reading back needs: no `=` inside a span numeral, at least one sub tier
-per intermediate tier, distinct sub tier names -/
+/-- the writer's shape, plus what reading back needs: no `=` inside a span numeral (a consequence of its being
+a numeral, `Lit.not_mem`), at least one sub tier per intermediate tier (a real restriction: a tier without sub
+tiers makes the reader fail, `klatt_zero_formants_counterexample` in `Props/C19Whole.lean`), distinct sub tier
+names (`addTier` raises TierNameExistsError otherwise) -/
 structure Shape2 (its : List IT) : Prop extends Shape its where
   spans : ∀ i ∈ its, ∀ p ∈ i.subs, '=' ∉ p.xmin ∧ '=' ∉ p.xmax
   nonempty : ∀ i ∈ its, i.subs ≠ []
@@ -1817,7 +1945,7 @@ theorem buildContainer_lists (its : List IT) (h : Shape2 its) (cs : List Txt) (h
     by_cases hcn : c ∈ its.map (·.name)
     · obtain ⟨i, hi, hic⟩ := List.mem_map.1 hcn
       obtain ⟨ia, ib, hits⟩ := List.append_of_mem hi
-      have hndn : (its.map (·.name)).Nodup := h.names.nodup canon_nodup
+      have hndn : (its.map (·.name)).Nodup := h.nodup
       rw [hits] at hndn
       simp only [List.map_append, List.map_cons] at hndn
       have hnd2 := List.nodup_append.1 hndn
@@ -1905,18 +2033,37 @@ theorem its_group (its : List IT) (h : (its.map (·.name)).Sublist canon) :
 def containerSection (row1 row2 row3 : Txt) (its : List IT) : Txt :=
   row1 ++ '\n' :: (row2 ++ '\n' :: (row3 ++ '\n' :: join ['\n'] (bodyLines its)))
 
+/-- the intermediate tiers in the order the reader builds them: Praat's order `formants`, `bandwidths`,
+`…_amplitudes` (`canon`) -/
+def canonOrder (its : List IT) : List IT := canon.flatMap fun c => its.filter fun i => decide (i.name = c)
+
+/-- tiers that already stand in Praat's order stay as they are -/
+theorem canonOrder_of_sublist (its : List IT) (h : (its.map (·.name)).Sublist canon) : canonOrder its = its :=
+  its_group its h
+
 /-- **(e), container level** — `_proccessContainerTierInput` applied to a container section in the writer's
 layout returns exactly the intermediate tiers, their sub tiers, spans and points that were written:
-hierarchy, names, every numeral digit for digit. -/
-theorem container_roundtrip (row1 row2 row3 : Txt) (h1 : '\n' ∉ row1) (h2 : '\n' ∉ row2) (h3 : '\n' ∉ row3)
+hierarchy, names, every numeral digit for digit — **whatever the order of the intermediate tiers in the
+section**; the result lists them in Praat's order (`canonOrder`), which is the order of the section when the
+section follows Praat (`container_roundtrip`). -/
+theorem container_roundtrip_anyorder (row1 row2 row3 : Txt) (h1 : '\n' ∉ row1) (h2 : '\n' ∉ row2) (h3 : '\n' ∉ row3)
     (its : List IT) (h : Shape2 its) :
-    processContainer (containerSection row1 row2 row3 its) = .ok its := by
+    processContainer (containerSection row1 row2 row3 its) = .ok (canonOrder its) := by
   unfold processContainer containerSection
   rw [pySplitN_hit _ _ _ _ h1, pySplitN_hit _ _ _ _ h2, pySplitN_hit _ _ _ _ h3, pySplitN_zero]
   simp only [List.getLast?_cons_cons, List.getLast?_singleton, Option.getD_some]
   rw [containerIndexLists_body its h.toShape]
   rw [buildContainer_lists its h canon canon_nodup (fun c hc => hc) none [] (by simp)]
-  simp [its_group its h.names]
+  simp [canonOrder]
+
+/-- **(e), container level**, for a section in Praat's order: the tiers come back in the order written.
+(Hypotheses: the three header rows are rows; `Shape2`: distinct tiers with Praat's names, sub tiers named
+`name [k]` with distinct names, at least one sub tier per tier — see `klatt_zero_formants_counterexample` —,
+numerals that are `KNumeral`s, i.e. any strings `float()` accepts and `strip()` leaves alone, `knumeral_iff`.) -/
+theorem container_roundtrip (row1 row2 row3 : Txt) (h1 : '\n' ∉ row1) (h2 : '\n' ∉ row2) (h3 : '\n' ∉ row3)
+    (its : List IT) (h : Shape2 its) (ho : (its.map (·.name)).Sublist canon) :
+    processContainer (containerSection row1 row2 row3 its) = .ok its := by
+  rw [container_roundtrip_anyorder row1 row2 row3 h1 h2 h3 its h, canonOrder_of_sublist its ho]
 
 /-! ### non-vacuity of the container round trip -/
 
@@ -1940,7 +2087,7 @@ theorem exIts_shape2 : Shape2 exIts := by
 
 /-- the container round trip applies to the concrete example (hypotheses satisfiable) -/
 example : processContainer (containerSection (t "oral_formants? <exists>") (t "xmin = 0") (t "xmax = 1") exIts) = .ok exIts :=
-  container_roundtrip _ _ _ (by decide) (by decide) (by decide) exIts exIts_shape2
+  container_roundtrip _ _ _ (by decide) (by decide) (by decide) exIts exIts_shape2 (by decide)
 
 /-! ## the layout of a whole written file (shared by the whole-file theorems in `Props/C19File.lean`, `Props/C19Read.lean`) -/
 
@@ -1985,12 +2132,14 @@ theorem pointobj_roundtrip (p : PO) :
   ⟨pointobj_roundtrip_1d p, pointobj_roundtrip_2d p⟩
 
 /-- the long (Praat) and the short (praatio) text layout of the same data open to the same object, for every
-number of points (for empty 2-D objects since the repair of `_parseNormalHeader`, /repo commit 3bc936d) -/
+number of points (for empty 2-D objects since the repair of `_parseNormalHeader`, /repo commit 3bc936d).
+One hypothesis for both layouts: the class name, and numerals that are any strings `float()` accepts and
+`strip()` leaves alone (`PO.Ok1` / `PO.Ok2`). -/
 theorem pointobj_long_short_agree (p : PO) :
-    (PO.Ok1 p → Long.Ok1 p → open1D (p.longText false) = open1D p.text) ∧
-    (PO.Ok2 p → Long.Ok2 p → open2D (p.longText true) = open2D p.text) := by
+    (PO.Ok1 p → open1D (p.longText false) = open1D p.text) ∧
+    (PO.Ok2 p → open2D (p.longText true) = open2D p.text) := by
   constructor
-  · intro h1 h2; rw [pointobj_long_1d p h2, pointobj_roundtrip_1d p h1]
-  · intro h1 h2; rw [pointobj_long_2d_all p h2, pointobj_roundtrip_2d p h1]
+  · intro h; rw [pointobj_long_1d p h, pointobj_roundtrip_1d p h]
+  · intro h; rw [pointobj_long_2d_all p h, pointobj_roundtrip_2d p h]
 
 end C19
